@@ -28,7 +28,7 @@ func init() { c17.Register(&c17.Kit{Name: PairName, Build: build}) }
 func build(c *vh.Check, p c17.Plan) []c17.Task {
 	var tasks []c17.Task
 	if c17.WantSection(c, "groth16") || c17.WantSection(c, "groth16-switch") {
-		for _, kind := range []string{"nocommit", "commit"} {
+		for _, kind := range []string{"nocommit", "commit"} { // the in-circuit Groth16 verifier documents: multiple commitments are not supported
 			f := buildG16(c, kind)
 			if c17.WantSection(c, "groth16") {
 				tasks = append(tasks, g16Tasks(c, p, f)...)
@@ -39,7 +39,7 @@ func build(c *vh.Check, p c17.Plan) []c17.Task {
 		}
 	}
 	if c17.WantSection(c, "plonk") || c17.WantSection(c, "plonk-switch") || c17.WantSection(c, "plonk-switch-debug") {
-		for _, kind := range []string{"nocommit", "commit"} {
+		for _, kind := range []string{"nocommit", "commit", "commit2"} {
 			f := buildPlonk(c, kind)
 			if c17.WantSection(c, "plonk") {
 				tasks = append(tasks, plonkTasks(c, p, f)...)
@@ -74,6 +74,7 @@ type innerCircuit struct {
 	N, M    frontend.Variable `gnark:",public"`
 	variant int
 	commit  bool
+	commit2 bool // a second commitment (verifiers hash every commitment separately)
 }
 
 func (ci *innerCircuit) Define(api frontend.API) error {
@@ -93,6 +94,13 @@ func (ci *innerCircuit) Define(api frontend.API) error {
 			return err
 		}
 		api.AssertIsDifferent(cm, 0)
+		if ci.commit2 {
+			cm2, err := api.Compiler().(frontend.Committer).Commit(ci.Q, ci.M)
+			if err != nil {
+				return err
+			}
+			api.AssertIsDifferent(cm2, cm)
+		}
 	}
 	return nil
 }
